@@ -210,7 +210,7 @@ pub fn run_case(c: &Case, tolerated: &[String], sticky: bool) -> Report {
                     rep.label("honest-stored");
                 }
                 if matches!(s.outcome, crate::sut::Submitted::Buffered) {
-                    rep.label(format!("buffered:{:?}", if s.honest { "honest" } else { "other" }));
+                    rep.label(format!("buffered:{}", if s.honest { "honest" } else { "other" }));
                 }
             }
         }
@@ -256,7 +256,9 @@ pub fn run(args: &Args) -> i32 {
         .assume("signer stakes and protocol parameters are constant over a history")
         .require_label("honest-stored")
         .require_label("honest-quorum-certified")
-        .require_label("buffered:\"other\"")
+        .require_label("buffered:other")
+        .require_label("buffered:honest")
+        .require_label("mislabelled-valid:refused")
         .shrink_iters(150);
     crate::model::warm_up(6);
     let t = check.tier;
